@@ -295,6 +295,16 @@ int main(int argc, char* const* argv)
 
     if (instance.txin && instance.tx && ca.l.size() == 0 && instance.script.size() == 0) {
         if (!instance.configure_tx_txin()) return 1;
+    } else if (instance.tx) {
+        // a script given explicitly is debugged in the context of ONE input of the transaction: the one --txin points at,
+        // else the one chosen with --select (else the first)
+        if (instance.txin_index < 0 && selected > -1) {
+            if ((size_t)selected >= instance.tx->vin.size()) {
+                fprintf(stderr, "error: the selected index %d is out of bounds (must be less than %zu, the number of inputs in the transaction)\n", selected, instance.tx->vin.size());
+                return 1;
+            }
+            instance.txin_index = selected;
+        }
     }
 
     if (!instance.setup_environment(flags)) {
